@@ -265,8 +265,10 @@ structure PrefixDisjoint (ds : List (DefItem R)) (fw i0 : List Stmt) : Prop wher
 theorem prefix_run (σ : St R) (nq : Nat) (ds : List (DefItem R)) (fw i0 : List Stmt)
     (hdef : ∀ d ∈ ds, IsDef x σ nq d.stmt d.name d.val) (hdis : PrefixDisjoint ds fw i0)
     (hfw : fwShape fw = true) (hssa : ssaOk i0 = true)
-    (hsafe : ∀ q : Nat, q < nq → ∀ υ : St R, AfterDefs σ ds fw q υ → SafeFrom υ (declNames i0) i0)
-    (q : Nat) (hq : q < nq) (τ : St R) (hag : ArrAgree σ τ) :
+    (q : Nat) (hq : q < nq) (τ : St R) (hag : ArrAgree σ τ)
+    (hsafe : ∀ υ : St R, AfterDefs σ ds fw q υ →
+      (∀ n, n ∉ ds.map (·.name) → n ∉ declNames fw → υ.sv.get n = τ.sv.get n) →
+      SafeFrom υ (declNames i0) i0) :
     ∃ τ₁, execL x (ds.map (·.stmt) ++ fwDecls fw ++ i0) (τ.setIV "iq" q) = .ok τ₁ ∧
       PrefixPost x σ ds fw i0 q τ τ₁ := by
   have hag0 : ArrAgree σ (τ.setIV "iq" (q : Int)) := ⟨hag.ia, fun _ h => h.elim, fun _ h => h.elim, hag.sa⟩
@@ -278,7 +280,8 @@ theorem prefix_run (σ : St R) (nq : Nat) (ds : List (DefItem R)) (fw i0 : List 
     · rw [g3, hf1.iv "iq" (by decide)]; simp [St.setIV]
     · intro d hd
       rw [g4 _ (hdis.d_fw _ (List.mem_map_of_mem hd))]; exact hv1 d hd
-  obtain ⟨τ₁, he3, hag3, ⟨k1, k2, k3⟩, heq⟩ := partition_ssa x i0 hssa υ₂ (hsafe q hq υ₂ hafter₂)
+  obtain ⟨τ₁, he3, hag3, ⟨k1, k2, k3⟩, heq⟩ := partition_ssa x i0 hssa υ₂
+    (hsafe υ₂ hafter₂ (fun n h1 h2 => by rw [g4 n h2, hf1.sv n h1]; rfl))
   refine ⟨τ₁, ?_, ⟨⟨?_, ?_, ?_, ?_⟩, ?_, ?_, ?_, ?_, heq⟩⟩
   · rw [execL_append', execL_append', he1]; simp only [he2]; exact he3
   · exact ⟨k2.trans hafter₂.arr.ia, fun _ h => h.elim, fun _ h => h.elim,
